@@ -44,6 +44,7 @@ func verifUDPFrame(s *packet.Session, srcPort, dstPort uint16, payload []byte) p
 	udp[2], udp[3] = byte(dstPort>>8), byte(dstPort)
 	udp[4], udp[5] = byte((8+len(payload))>>8), byte(8+len(payload))
 	copy(udp[8:], payload)
+	verifTagInput(b) // C10: nothing retained may point into the frame buffer
 	frame, err := s.Parse(b)
 	verifAssert(err == nil, "frame-parsed")
 	verifAssert(len(frame.Payload()) == len(payload), "frame-payload-is-the-dns-message")
@@ -108,6 +109,8 @@ func VerifC17ProcessDNS(sc int) {
 		}
 	}
 	check(e, "process-dns")
+	verifNoInputAlias(h, "C10:dns-handler-retains-packet-buffer")
+	verifNoInputAlias(e, "C10:returned-dns-entry-references-packet-buffer")
 	verifAssert(len(e.IP4Records) == 1 && len(e.IP6Records) == 1 && len(e.PTRRecords) == 0, "C17:process-dns:no-other-records")
 	check(h.DNSFind(string(q)), "dns-find")
 	verifAssert(len(h.DNSTable) == 1, "C17:process-dns:one-table-entry")
@@ -218,6 +221,9 @@ func VerifC17MDNS(sec int, extra int) {
 		return
 	}
 	verifAssert(len(l4) == 1 && len(l6) == 1, "C17:mdns:one-entry-per-address-record")
+	verifNoInputAlias(h, "C10:dns-handler-retains-packet-buffer-mdns")
+	verifNoInputAlias(l4, "C10:mdns-entries-reference-packet-buffer")
+	verifNoInputAlias(l6, "C10:mdns-entries-reference-packet-buffer")
 	if len(l4) == 1 {
 		verifAssert(verifStrEq(l4[0].NameEntry.Name, host), "C17:mdns:a-record-name")
 		verifAssert(l4[0].Addr.IP == verifAddr4(ip4) && verifStrEq(string(l4[0].Addr.MAC), verifClientMAC), "C17:mdns:a-record-address")
